@@ -9,7 +9,7 @@ from mutation_campaign import Worker, sh, GOENV, VERIF, ALL
 def main():
     workers = int(sys.argv[1])
     outp = sys.argv[2] if len(sys.argv) > 2 else "/tmp/cross_matrix.json"
-    patches = sorted(glob.glob(os.path.join(VERIF, "seeded", "C*", "patch.diff")) + glob.glob(os.path.join(VERIF, "seeded2", "C*", "patch.diff")) + glob.glob(os.path.join(VERIF, "seeded3", "C*", "patch.diff")) + glob.glob(os.path.join(VERIF, "seeded4", "C*", "patch.diff")))
+    patches = sorted(glob.glob(os.path.join(VERIF, "seeded", "C*", "patch.diff")) + glob.glob(os.path.join(VERIF, "seeded2", "C*", "patch.diff")) + glob.glob(os.path.join(VERIF, "seeded3", "C*", "patch.diff")) + glob.glob(os.path.join(VERIF, "seeded4", "C*", "patch.diff")) + glob.glob(os.path.join(VERIF, "seeded5", "C*", "patch.diff")))
     only = os.environ.get("CROSS_ONLY")
     if only:
         patches = [p for p in patches if "/".join(p.split("/")[-3:-1]) in only.split(",")]
